@@ -1,5 +1,5 @@
 (* C05 — everything outside the rewritten fragments is preserved. *)
-From GP Require Import Tree Meta Match Replace FileEngine MatchFacts FileFacts.
+From GP Require Import Tree Meta Match Replace FileEngine MatchFacts FileFacts FuelFacts.
 
 (* Frame: a subtree in which the pattern matches nowhere (quiet: at no slot the traversal
    reaches) comes out identical — Leibniz equality on trees, not merely equivalence. *)
@@ -43,3 +43,19 @@ Print Assumptions C05_order_and_count.
 Theorem C05_list_elements : forall (r : val -> val) xs j, nth_error (map r xs) j = option_map r (nth_error xs j).
 Proof. intros. apply nth_error_map. Qed.
 Print Assumptions C05_list_elements.
+
+(* The rewrite recurses on explicit fuel (the code on the depth of the tree).  The fuel
+   apply_change passes, S (size tree), is never what stops it: any larger fuel computes the
+   same tree and the same match count and errors.  So "rw" in the theorems above is the
+   rewrite of the whole file, not of a prefix of it.  (Needs: everything the match data of a
+   site refers to - elided runs, recorded for-headers and statement containers - is a part of
+   that site: mtch_small; and the replacer reads its view of the tree only there: inst_ext.) *)
+Theorem C05_rewrite_fuel_irrelevant : forall c g dinit id f,
+  match_imports (mk_of c) (ch_minus_imports c) (g_imports g) d0 {| id_bound := []; id_matched := [] |} = Some (dinit, id) ->
+  (size (g_tree g) < f)%nat ->
+  rw (mk_of c) (assoc_of (ch_assoc c)) (ch_minus c) (ch_plus c) dinit f (g_tree g) =
+  rw (mk_of c) (assoc_of (ch_assoc c)) (ch_minus c) (ch_plus c) dinit (S (size (g_tree g))) (g_tree g) /\
+  scan (mk_of c) (assoc_of (ch_assoc c)) (ch_minus c) (ch_plus c) dinit f (g_tree g) =
+  scan (mk_of c) (assoc_of (ch_assoc c)) (ch_minus c) (ch_plus c) dinit (S (size (g_tree g))) (g_tree g).
+Proof. exact apply_change_rw_fuel. Qed.
+Print Assumptions C05_rewrite_fuel_irrelevant.
